@@ -92,10 +92,17 @@ def discover(P):
             elif dst["k"] == "Binary" and dst["op"] == "+":
                 off = dst["c"][1]
             offm = _member_of(off) if off is not None else None
+            if offm is None and off is not None and strip(off)["k"] == "Ref":
+                import extent
+                d0 = extent.single_defs(f).get(strip(off)["n"])
+                offm = _member_of(d0) if d0 is not None else None      # unsigned allocated = S->M;
+                if offm is not None:
+                    offname = strip(off)["n"]
             if offm is None:
                 continue
             lenfields = set((x.get("rec"), x["f"]) for x in subnodes(a[2]) if x["k"] == "Member")
-            if (offm.get("rec"), offm["f"]) not in lenfields:
+            lenrefs = set(x["n"] for x in subnodes(a[2]) if x["k"] == "Ref")
+            if (offm.get("rec"), offm["f"]) not in lenfields and not (strip(off)["k"] == "Ref" and strip(off)["n"] in lenrefs):
                 continue
             if al is None:
                 al = _aliases(f)
@@ -185,6 +192,32 @@ def relies_on_zero(P, rec, A, N):
         if not fields:
             continue     # element is not a record (e.g. a pointer assigned whole): nothing can be relied upon field-wise
         assigned_f, whole, handed = set(), False, None
+        # pointers to the slot:  P = &A[v]  -> P->fld = .. assigns a field, P handed to a callee hands the slot
+        slotptrs = set()
+        for sl in slots:
+            p = f.par(sl)
+            if p is not None and p["k"] == "Unary" and p["op"] == "&":
+                pp = f.par(p)
+                while pp is not None and pp["k"] == "Cast":
+                    pp = f.par(pp)
+                if pp is not None and pp["k"] == "Var":
+                    slotptrs.add(pp["n"])
+                elif pp is not None and assigned(pp) and assigned(pp)[1] == "=" and lv(assigned(pp)[0]):
+                    slotptrs.add(lv(assigned(pp)[0]))
+        if slotptrs:
+            for y in f.walk():
+                a9 = assigned(y)
+                if a9 and a9[1] == "=":
+                    t9 = strip(a9[0])
+                    if t9["k"] == "Member" and lv(t9["c"][0]) in slotptrs:
+                        assigned_f.add(t9["f"])
+                if y["k"] == "Call":
+                    for z in args(y):
+                        if lv(z) in slotptrs:
+                            if y.get("fn") == "memset":
+                                whole = True
+                            else:
+                                handed = handed or (y.get("fn"), f.loc(y))
         for sl in slots:
             p = f.par(sl)
             if p is None:
@@ -211,6 +244,44 @@ def relies_on_zero(P, rec, A, N):
         if handed and not whole and missing:
             return {"function": f.name, "callee": handed[0], "loc": handed[1], "unassigned": missing}
     return None
+
+
+def _only_grows_from(f, v, rec, N):
+    """local v is initialised from S->N (possibly through a chained assignment) and otherwise only incremented"""
+    init = False
+    for n in f.walk():
+        a = assigned(n)
+        tgt = rhs = None
+        if a and lv(a[0]) == v:
+            if a[1] in ("++",) or (a[1] == "+=" and a[2] is not None and (cval(a[2]) or 0) >= 0 and cval(a[2]) is not None):
+                continue
+            if a[1] == "=" and a[2] is not None:
+                rhs = strip(a[2])
+            else:
+                return False
+        elif n["k"] == "Var" and n["n"] == v and n.get("c") and n["c"][0] is not None:
+            rhs = strip(n["c"][0])
+        else:
+            # v may also be the inner target of a chained assignment  w = v = S->N
+            continue
+        while rhs is not None and rhs["k"] == "Binary" and rhs["op"] == "=":
+            rhs = strip(rhs["c"][1])
+        m = _member_of(rhs)
+        if m is not None and m.get("rec") == rec and m["f"] == N:
+            init = True
+        else:
+            return False
+    # chained form: some other assignment contains `v = S->N` as its right-hand side
+    if not init:
+        for n in f.walk():
+            if n["k"] == "Binary" and n["op"] == "=" and lv(n["c"][0]) == v:
+                r = strip(n["c"][1])
+                while r is not None and r["k"] == "Binary" and r["op"] == "=":
+                    r = strip(r["c"][1])
+                m = _member_of(r)
+                if m is not None and m.get("rec") == rec and m["f"] == N:
+                    init = True
+    return init
 
 
 class _Pending(Flow):
@@ -278,6 +349,9 @@ def run(chk, P, rule="R-TAILZERO", only_arrays=None, min_arrays=1):
                     r = strip(a[2])
                     # N = N + k / N = bigger local computed by the grower are handled by the grower exemption
                     if cval(r) is None and f.name == info["grower"]:
+                        continue
+                    # N = v where v started as N and was only ever incremented: not a lowering
+                    if r["k"] == "Ref" and _only_grows_from(f, r["n"], rec, N):
                         continue
                 decs.append(n)
             if not decs:
